@@ -252,7 +252,15 @@ inline int harness_main(int argc, char** argv, Registry& reg) {
     detail::g_dumped = false;
     st.evaluations++;
     try {
-      fn(cs);
+      try {
+        fn(cs);
+      } catch (const Failure&) { throw;
+      } catch (const rc::detail::CaseResult&) { throw;
+      } catch (const rc::GenerationFailure&) { throw;
+      } catch (const std::exception& e) {
+        // an exception the property did not expect: report it like an oracle failure (with the case saved)
+        throw Failure(std::string("sig=unexpected_exception ") + e.what());
+      }
     } catch (const Failure& f) {
       failmsg = f.what();
       if (first_fail_at < 0) first_fail_at = wall();
